@@ -101,6 +101,14 @@ def gen_case(rng, tier="quick"):
         mode = rng.choice(["random", "random", "random", "lifo", "lifo", "fifo"])
         p_emit = rng.choice([0.2, 0.5, 0.5, 0.9, 1.0])
     inputs = [[rng.choice([-3, 0, 1, 2, 3, 4, 7, 9]), rng.random() < 0.6] for _ in range(n)]
+    if rng.random() < 0.12:
+        # the elements are BATCHES (lists / tuples of numbers, some of them empty - an idle window, an empty poll) that the
+        # first stage reduces to a number
+        def batch():
+            items = [rng.choice([-3, 0, 1, 2, 4, 7]) for _ in range(rng.choice([0, 0, 1, 2, 3]))]
+            return {"l": items} if rng.random() < 0.5 else {"t": items}
+        inputs = [[batch(), has] for (_, has) in inputs]
+        stages = [{"k": "map", "f": ["FDeepSum"], "style": "closure"}] + stages
     sched = {"seed": rng.randrange(1 << 30), "mode": mode, "p_emit": p_emit}
     if discipline == "awaited":
         sched["await"] = [True] * n
